@@ -208,8 +208,7 @@ class C07(Check):
             'long) and XML fragments, the request parsed with xml.etree (not lxml) and every string required to come back unaltered exactly '
             'where it belongs; (c) the model\'s escapeText/escapeAttr compared byte for byte with lxml\'s serialisation, and readText/readAttr '
             'with expat, on random strings; (d) random namespace-free trees built with new_ele/sub_ele: to_xml compared byte for byte with the model\'s '
-            'serialize, expat\'s reading compared with the model\'Configuration text declaring the value as an entity of its internal DTD subset (request built in a forked child); rich <config> fragments on six profiles; the retrieval builders on random arguments. '
-            's parseDoc and with the tree that was built (theorem doc_roundtrip). Non-trivial = a sent request carrying at least one caller string; distinct by case.')
+            'serialize, expat\'s reading compared with the model\'s parseDoc and with the tree that was built (theorem doc_roundtrip). Configuration text declaring the value as an entity of its internal DTD subset (request built in a forked child); rich <config> fragments on six profiles; the retrieval builders on random arguments. Non-trivial = a sent request carrying at least one caller string; distinct by case.')
     TRUST = ['lxml/libxml2 serialisation is MODELLED (Model/XmlText.lean) and compared with the library on every run, not verified',
              'parametricity: behaviour depends on a caller string only through its position (sampled with concrete strings each run)',
              'the catalogue of argument shapes in harness/gen/optable.py']
